@@ -989,6 +989,20 @@ class SymBytes(object):
     def psx_truth(self):
         return mkbool(self.hi > self.lo)
 
+    def psx_eq(self, other):
+        """compared with a bytes literal: equal to b"" iff empty; the (unmodelled) content equals no other given literal"""
+        if isinstance(other, (bytes, bytearray)):
+            if len(other) == 0:
+                return mkbool(self.hi <= self.lo)
+            from .interp import current
+            current().unsupported("content of a symbolic file compared with a bytes literal")
+        if isinstance(other, SymBytes):
+            if other.fid == self.fid:
+                return mkbool(z3.Or(z3.And(self.lo == other.lo, self.hi == other.hi), z3.And(self.hi <= self.lo, other.hi <= other.lo)))
+            from .interp import current
+            current().unsupported("contents of two symbolic files compared")
+        return False
+
     def __len__(self):
         raise sstr.SymEscape("SymBytes escaped")
 
